@@ -70,6 +70,21 @@ pub fn run_seed(base: u64, prop: &str, index: u64) -> u64 {
 }
 
 fn make_scenario(p: &props::PropDef, tier: &str, base: u64, index: u64) -> Scenario {
+    let n = p.extra_profiles.len() as u64;
+    if tier == "thorough" && n > 0 {
+        // half of the runs come from this property's own profile, the other half is spread over
+        // the profiles of the listed other properties (judged by this property's oracle)
+        let slot = index % (2 * n);
+        let round = index / (2 * n);
+        if slot >= n {
+            let gp = props::get(p.extra_profiles[(slot - n) as usize]).expect("unknown extra profile");
+            let mut g = sgen::G::new(run_seed(base, p.id, simrt::mix(round / gp.block.max(1), slot)), true);
+            return (gp.generate)(&mut g, round);
+        }
+        let own = round * n + slot;
+        let mut g = sgen::G::new(run_seed(base, p.id, own / p.block.max(1)), true);
+        return (p.generate)(&mut g, own);
+    }
     let mut g = sgen::G::new(run_seed(base, p.id, index / p.block.max(1)), tier == "thorough");
     (p.generate)(&mut g, index)
 }
@@ -132,7 +147,18 @@ fn fault_counts(v: &View, acc: &mut BTreeMap<String, u64>) {
 }
 
 fn worker(args: &[String]) -> i32 {
-    let p = props::get(&args[0]).expect("unknown property");
+    // "ORACLE@GENERATOR": judge the scenarios of another property's profile with this oracle
+    let (oracle_id, gen_id) = match args[0].split_once('@') {
+        Some((o, g)) => (o.to_string(), g.to_string()),
+        None => (args[0].clone(), args[0].clone()),
+    };
+    let mut p = props::get(&gen_id).expect("unknown property");
+    if oracle_id != gen_id {
+        let o = props::get(&oracle_id).expect("unknown property");
+        p.check = o.check;
+        p.nontrivial = o.nontrivial;
+        p.outcome = None;
+    }
     let tier = args[1].as_str();
     let base: u64 = args[2].parse().unwrap();
     let start: u64 = args[3].parse().unwrap();
